@@ -249,6 +249,13 @@ C06_LossTotal(w1, e, w2) ==
   (G # {} /\ ~IsProbe(e) /\ w1.chainUnbonding = w1.hubPar.unbonding) =>
     LET paid == SumFn([i \in G |-> Paid(w2.hist[i], "b") + Paid(w2.hist[i], "st")], G)
     IN Abs(paid - (HubCoins(w1) - w1.hub.prevBal)) <= 4 * Cardinality(G) + 4
+\* Exploration, not a listed property (DESIGN.md section 11): without slashing and without unsolicited coins a released
+\* group is promised its whole unbonded value.  Under E2 this follows from C01 (d) and the environment; with PayLag it fails.
+E2_FullValue(w1, e, w2, g1) ==
+  LET G == NewlyReleased(w1, w2)
+      nclaims == Cardinality({p \in Accts \X (G \cap 1..MaxBatch) : w1.wait[p[1]][p[2]] # NoWait})
+  IN (G # {} /\ ~IsProbe(e) /\ G \cap g1.slashed = {} /\ ~g1.donated /\ w1.chainUnbonding = w1.hubPar.unbonding)
+       => SumFn([i \in G |-> Unb(w2.hist[i], "b") + Unb(w2.hist[i], "st")], G) - GroupClaims(w1, w2, G) <= 4 * Cardinality(G) + 2 * nclaims
 \* the check inside every pricing operation (bond, re-bonded rewards, unbond, convert) recognises the slashing: afterwards
 \* the stored books are the recognised ones (the State query has nothing left to recompute)
 C06_PricingRecognises(e, w2, o2) == PricingStep(e) => (w2.hub.bondB = o2.rep.bondB /\ w2.hub.bondSt = o2.rep.bondSt)
